@@ -175,13 +175,37 @@ def src_parserhelper(p):
 
 
 # ----------------------------------------------------------------------------- evaluation / comparison
+class EvalTimeout(BaseException):
+    """raised by the watchdog: an evaluation ran for more than LIMIT seconds (big-integer towers)"""
+
+
+LIMIT = 3.0
+
+
+def _alarm(signum, frame):
+    raise EvalTimeout()
+
+
 def outcome(f):
+    """('ok', value) | ('err', exception class name); a watchdog bounds the time of one evaluation
+    (CPython's big-integer loops poll for signals), reported as class 'Timeout'"""
+    import signal
+    old = signal.signal(signal.SIGALRM, _alarm)
+    signal.setitimer(signal.ITIMER_REAL, LIMIT)
     try:
-        return ("ok", f())
-    except RecursionError:
-        return ("err", "RecursionError")
-    except Exception as ex:   # noqa: BLE001 — classes are the observable
-        return ("err", type(ex).__name__)
+        try:
+            return ("ok", f())
+        except RecursionError:
+            return ("err", "RecursionError")
+        except Exception as ex:   # noqa: BLE001 — classes are the observable
+            return ("err", type(ex).__name__)
+        finally:
+            signal.setitimer(signal.ITIMER_REAL, 0)
+    except EvalTimeout:
+        return ("err", "Timeout")
+    finally:
+        signal.setitimer(signal.ITIMER_REAL, 0)
+        signal.signal(signal.SIGALRM, old)
 
 
 def same_number(a, b):
@@ -514,15 +538,22 @@ def no_execution(ck, rng, thorough):
                         ("from_string", lambda t: ParserHelper.from_string(t, float))):
             _state["events"].clear()
             _state["armed"] = True
+            import signal
+            old_h = signal.signal(signal.SIGALRM, _alarm)
+            signal.setitimer(signal.ITIMER_REAL, LIMIT)
             try:
                 try:
                     v = f(s)
                     kind = "value"
                 except Exception as ex:  # noqa: BLE001
                     v, kind = ex, "exception"
+            except EvalTimeout:
+                v, kind = TimeoutError("evaluation longer than the watchdog limit"), "exception"
             except BaseException as ex:  # noqa: BLE001 — SystemExit / KeyboardInterrupt from a parse would be a finding
                 v, kind = ex, "base-exception"
             finally:
+                signal.setitimer(signal.ITIMER_REAL, 0)
+                signal.signal(signal.SIGALRM, old_h)
                 _state["armed"] = False
             ev = list(_state["events"])
             if kind == "value":
